@@ -134,10 +134,13 @@ Arguments OutOfFuel {A}.
 Definition M (A : Type) := pset -> list (result A).
 Definition ret {A} (a : A) : M A := fun s => [Ret a s].
 Definition bind {A B} (m : M A) (f : A -> M B) : M B := fun s =>
-  flat_map (fun r => match r with
-                     | Ret a s' => f a s'
-                     | Deadlock => [Deadlock] | Panicked => [Panicked] | OutOfFuel => [OutOfFuel]
-                     end) (m s).
+  match m s with
+  | [Ret a s'] => f a s'        (* the deterministic case, kept apart so that it is a tail call *)
+  | l => flat_map (fun r => match r with
+                            | Ret a s' => f a s'
+                            | Deadlock => [Deadlock] | Panicked => [Panicked] | OutOfFuel => [OutOfFuel]
+                            end) l
+  end.
 Notation "x <- m ;; f" := (bind m (fun x => f)) (at level 61, m at next level, right associativity).
 Notation "m ;;; f" := (bind m (fun _ => f)) (at level 61, right associativity).
 Definition get : M pset := fun s => [Ret s s].
@@ -429,13 +432,33 @@ Fixpoint fill_slots (fuel : nat) : M unit :=
     end
   end.
 
+(* `for reservePeer := range ps.reservedNode`: Go iterates the map in an unspecified order. Connected
+   peers are skipped (`continue`) and the loop stops (`break`) at the first peer that is not
+   connected and below the ban threshold, so all that matters of an iteration order is the
+   sequence of its not-connected peers up to and including the first such peer: the possible
+   orders are enumerated in that reduced form, without duplicates. *)
+Definition breaker (s : pset) (p : N) : bool :=
+  match find_node (nodes s) p with
+  | Some n => negb (is_connected (n_st n)) && (n_rep n <? banned_threshold)
+  | None => false
+  end.
+Fixpoint order_prefix (s : pset) (l : list N) : list N :=
+  match l with
+  | [] => []
+  | p :: r => if breaker s p then [p] else p :: order_prefix s r
+  end.
+Definition alloc_orders (s : pset) : list (list N) :=
+  nodup (list_eq_dec N.eq_dec)
+        (map (order_prefix s)
+             (perms (filter (fun p => negb (pstatus_eqb (status_of s p) SConnected)) (reserved s)))).
+
 Definition alloc_slots : M (option err) :=
   e <- update_time ;;
   match e with
   | Some e => ret (Some e)
   | None =>
     s <- get ;;
-    order <- choose (perms (reserved s)) ;;
+    order <- choose (alloc_orders s) ;;
     c <- for_each order reserved_body ;;
     match c with
     | Retn e => ret e
